@@ -583,6 +583,9 @@ func (m *Machine) invoke(t *Thread, fn Value, args []Value, ins ssa.Instruction,
 		m.goPanic(t, "runtime error: invalid memory address or nil pointer dereference (nil func call)", ins)
 		return
 	}
+	if traceCalls && cl.Fn != nil && strings.Contains(cl.Fn.String(), "socket.io-go") && !strings.Contains(cl.Fn.Name(), "verif") {
+		m.note("T%d call %s @%s", t.ID, cl.Fn.String(), m.pos(ins))
+	}
 	if cl.Native != "" {
 		if cl.Native == "nilinvoke" {
 			m.goPanic(t, "runtime error: invalid memory address or nil pointer dereference (method call on nil interface)", ins)
